@@ -29,6 +29,7 @@ type Scenario struct {
 	IDScheme    int          `json:"id_scheme,omitempty"`    // 0: t00,t01..; 1: every id is a prefix of the next; 2: ids with spaces, slashes, quotes, non-ASCII
 	UseTaskMap  bool         `json:"use_task_map,omitempty"` // primary Task objects come from TaskMap.Add/Get
 	UseColor    bool         `json:"use_color,omitempty"`
+	DFSProbe    int          `json:"dfs_probe,omitempty"`           // this many monitor goroutines call DepthFirstSort() on the graphs while they run
 	OuterBuf    bool         `json:"outer_buffer_in_ctx,omitempty"` // the context given to Run already carries StdoutBuffer/StderrBuffer values (a nested, buffering graph)
 	MaxParFirst int          `json:"max_par_first,omitempty"`       // an earlier SetMaxParallel call with this value (the later one wins)
 	SerialLast  bool         `json:"serial_last,omitempty"`         // SetSerial is called after SetMaxParallel instead of before
@@ -75,10 +76,11 @@ type TaskSpec struct {
 
 type AttemptSpec struct {
 	Dur    int    `json:"dur"`              // simulated duration in poll ticks
-	Res    string `json:"res"`              // ok | err | skip | skipw | errs0 | errs1 (the task returns a *dag.Errors value: empty / with one entry) | errctx (an error wrapping context.DeadlineExceeded: the task's own timeout)
+	Res    string `json:"res"`              // ok | err | skip | skipw | skipj | skipm | skipis (ErrorSkipParents itself / wrapped with %w / inside errors.Join / one of two %w / through an Is method) | errs0 | errs1 (the task returns a *dag.Errors value: empty / with one entry) | errctx (an error wrapping context.DeadlineExceeded: the task's own timeout)
 	Chunks int    `json:"chunks,omitempty"` // output chunks written when buffering is on
 	Big    bool   `json:"big,omitempty"`    // the first chunk carries 70 KiB of padding (more than any sane internal buffer limit)
 	Cancel string `json:"cancel,omitempty"` // "", entry, exit: call cancel() there
+	DFS    bool   `json:"dfs,omitempty"`    // the task asks its graph for DepthFirstSort() while it runs (a read-only call)
 }
 
 // Call is one public-API call of the construction history.
@@ -552,6 +554,9 @@ func genAttempts(r *simrt.RNG, retries int, faulty bool, faultP int, buffer bool
 		a := AttemptSpec{Res: "ok", Dur: []int{0, 1, 1, 2, 5, 40}[r.Intn(6)]}
 		if faulty && r.Intn(100) < faultP {
 			a.Res = []string{"err", "err", "err", "skip", "skipw"}[r.Intn(5)]
+			if a.Res == "skipw" && r.Intn(2) == 0 {
+				a.Res = []string{"skipj", "skipm", "skipis"}[r.Intn(3)]
+			}
 			if r.Intn(10) == 0 {
 				a.Res = []string{"errs0", "errs1", "errctx", "errctx"}[r.Intn(4)]
 			}
@@ -651,6 +656,18 @@ func Generate(seed uint64, o GenOpts) *Scenario {
 	}()
 	sc.UseTaskMap = r.Intn(6) == 0
 	sc.UseColor = r.Intn(5) == 0
+	if r.Intn(6) == 0 {
+		sc.DFSProbe = 2 + r.Intn(2)
+	}
+	if r.Intn(8) == 0 {
+		for i := range sc.Tasks {
+			if r.Intn(2) == 0 {
+				for k := range sc.Tasks[i].Attempts {
+					sc.Tasks[i].Attempts[k].DFS = true
+				}
+			}
+		}
+	}
 	if sc.MaxPar > 0 && r.Intn(4) == 0 {
 		sc.MaxParFirst = 1 + r.Intn(5)
 	}
@@ -666,7 +683,11 @@ func Generate(seed uint64, o GenOpts) *Scenario {
 	if r.Intn(4) == 0 || (o.Prop == "C15" && r.Intn(10) < 3) || (o.Prop == "C16" && r.Intn(10) < 2) {
 		sc.Graphs = 2
 	}
-	if o.Prop == "C16" && sc.Graphs == 2 && r.Intn(2) == 0 {
+	if sc.Graphs == 2 && r.Intn(4) == 0 {
+		// several graphs: more than one goroutine can be waiting for the same Task at one time
+		sc.Graphs = 3
+	}
+	if o.Prop == "C16" && sc.Graphs >= 2 && r.Intn(2) == 0 {
 		// two graphs contending for shared Tasks under tight limits: where a slot or a Task lock held
 		// at the wrong moment keeps a ready task from starting
 		sc.MaxPar, sc.Serial = 1+r.Intn(2), false
